@@ -44,7 +44,7 @@ def plan(tier, seed):
 
 def mandatory_bins(tier):
     return ["sweep_customer", "sweep_project", "sweep_device", "sweep_version", "project_9999", "device_9999", "device_0", "name_absent", "name_only", "name_with_version_suffix",
-            "prj_settings_subsets", "dev_settings_subsets", "fallback_name_only", "missing_error", "byte_width_1", "byte_width_2", "byte_width_3", "byte_width_4", "byte_width_8", "unparsable", "ambiguous_name"]
+            "prj_settings_subsets", "dev_settings_subsets", "fallback_name_only", "missing_error", "byte_width_1", "byte_width_2", "byte_width_3", "byte_width_4", "byte_width_8", "unparsable", "ambiguous_name", "parse_again_after_caller_edited_the_first_result"]
 
 
 def fields(obj):
@@ -94,6 +94,20 @@ def check_id(ns, ctx, c, p, d, v, name):
         return
     if again != canon:
         ctx.violation("parse_then_print_changes_canonical_text", {"text": canon, "printed": again}, rp)
+        return
+    # history: the caller edits the identifier it got (ordinary attribute assignment, e.g. bumping the version) and the
+    # same text is parsed again - the second result must not know about the edit
+    if (c or 0) % 3 == 0 and not ambiguous:
+        try:
+            first = CI.create_from_str(canon)
+            first.version = (first.version + 1) % 100
+            first.name = "edited by the caller"
+            second = CI.create_from_str(canon)
+            ctx.bin("parse_again_after_caller_edited_the_first_result")
+            if str(second) != canon or not same_id(fields(second), (c, p, d, v, name)):
+                ctx.violation("second_parse_of_a_text_sees_edits_made_to_the_first_result", {"text": canon, "second": fields(second)}, rp)
+        except Exception as e:
+            ctx.violation("canonical_text_not_parsed", {"text": canon, "exc": fmt_exc(e)}, rp)
 
 
 def check_config(ns, ctx, conf, which):
